@@ -1,6 +1,6 @@
 """C13 — independent handles can be used from different threads."""
 import json, os, re
-from lib.core import Engine, Case, ROOT
+from lib.core import Engine, Case, ROOT, BuildError
 from lib import refs
 
 PROP = 'C13'
@@ -32,7 +32,7 @@ MANIFEST = {
             'the freshly compiled objects on every run, and `decide` checks it against a reviewed classification '
             '(shared_inventory_closed, no_racy_statics_partial, arc4random_locked, process_wide_closed). Engine thr (TSan build): '
             'k threads x read/write/disk workloads on separate handles, fresh process per attempt, barrier release; per-workload '
-            'digests of statuses/metadata/data must equal the sequential and the solo runs; races are attributed to static objects.',
+            'digests of statuses, entry metadata, data and of what each handle reports about itself after every header/body (format code and name, filter codes and names, counters) must equal the sequential and the solo runs; races are attributed to static objects.',
     'note': 'Partial: the C memory model, races inside external libraries and schedules TSan did not see are outside. '
             'Known findings: archive_version_details() racy first call; dos_*/can_dupfd_cloexec unsynchronised but idempotent.',
     'technique': 'Lean 4 proof (induction over interleavings, invariant for the small-step lazy-init machine) + extracted '
@@ -59,6 +59,15 @@ class Thr(Engine):
     keep_prefix = 10 ** 6          # no delta debugging: schedules are not reproducible op by op
     env = {'TSAN_OPTIONS': 'exitcode=0:report_signal_unsafe=0:history_size=4:ignore_noninstrumented_modules=1', 'VERIF_REFS': refs.REFDIR}
     timeout = 3000
+
+    def build(self):
+        # The obligation shared_inventory_closed is only as fresh as lean/LA/Gen/Statics.lean: refuse to go on
+        # when the extractor was not run by this check (it once was silently dropped from extract.EXTRACTORS).
+        from lib import extract_statics
+        if extract_statics.LAST_RUN is None:
+            raise BuildError('the Statics extractor did not run in this check: lean/LA/Gen/Statics.lean may be stale, '
+                             'so shared_inventory_closed says nothing about the current tree')
+        return super().build()
 
     def refs(self):
         if not hasattr(self, '_refs'):
@@ -139,12 +148,24 @@ class Thr(Engine):
         yield self.case('iso-xar-7zip-writers', [f'wr iso9660 none {rng.randrange(99)} 4', f'wr xar none {rng.randrange(99)} 4',
                                                  f'wr 7zip none {rng.randrange(99)} 4', f'wr iso9660 none {rng.randrange(99)} 3'], att)
         yield self.case('version-details', ['ver', 'ver'], 2)
+        # per format family: handles of the same reader side by side on different inputs (per-handle format names,
+        # method strings, codec state), a few inputs each
+        fams = [('lha', r'\.lzh$'), ('zip', r'\.(zip|xps|jar)$'), ('7zip', r'\.7z$'), ('rar', r'\.rar$'), ('cab', r'\.cab$'),
+                ('iso', r'\.iso'), ('xar', r'\.xar$'), ('mtree', r'mtree'), ('cpio', r'cpio'), ('ar', r'_ar[._]|\.ar$'),
+                ('warc', r'\.warc'), ('tar', r'\.(tar|pax|gtar)$|\.t[gbx]z$')]
+        if quick:
+            fams = fams[:2] + rng.sample(fams[2:], 5)     # lha and zip always: they rename the format per entry
+        for fam, pat in fams:
+            hits = self.pick(pat)
+            if len(hits) >= 2:
+                k = 4 if quick else 8
+                yield self.case('family:' + fam, ['rd ' + p for p in rng.sample(hits, min(k, len(hits)))], att)
         fmts = list(WRITE_FORMATS)
         rng.shuffle(fmts)
         for i in range(0, len(fmts), 6):
             yield self.case(f'writers-{i}', [f'wr {f} {self.filt(rng, f)} {rng.randrange(1000)} {rng.choice([1, 3, 7])}'
                                              for f in fmts[i:i + 6]], att)
-        n = 16 if quick else 120
+        n = 12 if quick else 120
         for i in range(n):
             k = rng.choice([2, 3, 4, 6, 8] if quick else [2, 3, 4, 6, 8, 12, 16])
             wls = []
